@@ -54,6 +54,11 @@ pub struct PCase {
   /// `.take(k)` below the handlers
   #[serde(default)]
   pub finish_after: usize,
+  /// fault: k > 0 makes the subscriber's callback panic once, right after it
+  /// has recorded its k-th notification (only scenarios whose oracle has an
+  /// answer for that run such cases: C17)
+  #[serde(default)]
+  pub panic_at: usize,
 }
 
 #[derive(Default, Debug)]
@@ -66,6 +71,8 @@ pub struct PRun {
   /// (stamp, is_closed) sampled after every action while the handle exists
   pub closed: Vec<(u64, bool)>,
   pub panic: Option<String>,
+  /// panics of the injected subscriber fault that surfaced in the harness
+  pub injected_panics: u64,
   pub post_terminal_inputs: u64,
   pub late_subscribe_after_input_terminal: bool,
   pub inputs_terminated_total: u64,
@@ -132,6 +139,20 @@ pub fn valid(case: &PCase) -> bool {
 }
 
 pub fn run_pipeline(case: &PCase) -> Result<PRun, String> {
+  if case.panic_at > 0 {
+    return Err("this scenario has no oracle for a panicking subscriber".into());
+  }
+  run_pipeline_on(case, false)
+}
+
+/// like `run_pipeline`, but the case may make the subscriber's callback panic:
+/// the panic is swallowed wherever it surfaces (inside a scheduled task by the
+/// library itself, inside a scripted action by the harness), the script goes
+/// on, and `PRun::injected_panics` counts the panics the harness saw
+pub fn run_pipeline_with_panics(case: &PCase) -> Result<PRun, String> {
+  if case.panic_at > 16 {
+    return Err("invalid pipeline case".into());
+  }
   run_pipeline_on(case, false)
 }
 
@@ -184,6 +205,8 @@ fn run_pipeline_inner(case: &PCase, mut pool: Option<&mut futures::executor::Loc
   };
   let style = if case.sub_style == 2 { 2 } else { case.closure_subscriber as u8 };
   let fin = case.finish_after;
+  log.panic_at.store(case.panic_at, SeqCst);
+  let tolerant = case.panic_at > 0;
   if style == 0 {
     log.finish_after.store(fin, SeqCst);
   }
@@ -221,8 +244,11 @@ fn run_pipeline_inner(case: &PCase, mut pool: Option<&mut futures::executor::Loc
   let mut counts = vec![0i64; case.n_hot];
   let sample = |handle: &Option<Handle>, run: &mut PRun, w: &World| {
     if let Some(h) = handle {
-      let c = h.is_closed();
-      run.closed.push((w.shared.stamp(), c));
+      // after an injected panic a poisoned cell may make is_closed() itself
+      // panic: no answer, no sample
+      if let Ok(c) = catch_unwind(AssertUnwindSafe(|| h.is_closed())) {
+        run.closed.push((w.shared.stamp(), c));
+      }
     }
   };
   sample(&handle, &mut run, &w);
@@ -310,8 +336,13 @@ fn run_pipeline_inner(case: &PCase, mut pool: Option<&mut futures::executor::Loc
         }
       }));
       if let Err(p) = r {
-        run.panic = Some(format!("`{}` then {:?}: {}", run.trace.trim(), a, panic_message(&*p)));
-        break;
+        if tolerant {
+          run.injected_panics += 1;
+          run.trace.push_str("(panicked) ");
+        } else {
+          run.panic = Some(format!("`{}` then {:?}: {}", run.trace.trim(), a, panic_message(&*p)));
+          break;
+        }
       }
       sample(&handle, &mut run, &w);
     }
@@ -369,6 +400,7 @@ fn run_pipeline_inner(case: &PCase, mut pool: Option<&mut futures::executor::Loc
           run.idle_at = Some(w.now());
         }
       }
+      Err(_) if tolerant => run.injected_panics += 1,
       Err(p) => run.panic = Some(format!("`{}` then quiescence: {}", run.trace.trim(), panic_message(&*p))),
     }
     if run.panic.is_none() {
